@@ -40,6 +40,10 @@ class Recorder:
         k = self.counts.get(name, 0)
         self.counts[name] = k + 1
         self.trace.append((name,) + args)
+        if self.fail_at is not None and len(self.fail_at) == 3 and self.fail_at[0] == name:
+            # a call that fails every time it is tried (a retry must not end in carrying on)
+            self.trace.append(("RAISED", name))
+            raise OSError(self.fail_at[2], os.strerror(self.fail_at[2]) + " (injected, persistent)")
         if self.fail_at == (name, k):
             self.trace.append(("RAISED", name))
             if name in ("getpwnam", "getgrnam"):
@@ -190,7 +194,7 @@ def judge(mode, usechroot, setuid, setgid, tls, fail_at, trace, outcome, final_r
     if fail_at is not None and raised:
         # a failure aborts start-up: propagates, nothing privileged afterwards, no server
         k = names.index("RAISED")
-        later = [n for n in names[k + 1:] if n in DROP or n in ("chdir",)]
+        later = [n for n in names[k + 1:] if (n in DROP or n in ("chdir",)) and not (len(fail_at) == 3 and n == fail_at[0])]
         if later:
             bad.append(("continues-after-failure", "after %s failed start-up went on with %r" % (raised[0], later)))
         if not outcome.startswith("raised"):
@@ -300,6 +304,11 @@ def _shard(shard, seed, tier):
                 k = seen.get(n, 0)
                 seen[n] = k + 1
                 faults.append((n, k))
+                if k == 0 and mode == "security" and n in ("chroot", "setgroups", "setregid", "setreuid", "setresgid", "setresuid", "setgid", "setuid"):
+                    import errno as _errno
+
+                    faults.append((n, "all", _errno.EAGAIN))
+                    faults.append((n, "all", _errno.ENOMEM))
         for fa in faults:
             if fa is not None:
                 trace, outcome, final_root, got, docroot = run_startup(mode, usechroot, setuid, setgid, tls, fa, detach, euid, spelling, cwd)
@@ -310,7 +319,7 @@ def _shard(shard, seed, tier):
             part.outcome(mode, usechroot, setuid, setgid, tls, fa[0] if fa else None, tuple(b[0] for b in bad), detach, euid, spelling, cwd)
             part.sample({"mode": mode, "usechroot": usechroot, "setuid": setuid, "setgid": setgid, "tls": tls, "fault": fa, "trace": [list(map(str, t)) for t in trace]}, limit=2)
             for cls, det in bad:
-                part.violation("%s|chroot=%d|uid=%d|gid=%d|tls=%d|detach=%d|euid=%d|spelling=%s|cwd=%s|fault=%s|%s" % (mode, usechroot, setuid, setgid, tls, detach, euid, spelling, cwd, "%s#%d" % fa if fa else "none", cls), det,
+                part.violation("%s|chroot=%d|uid=%d|gid=%d|tls=%d|detach=%d|euid=%d|spelling=%s|cwd=%s|fault=%s|%s" % (mode, usechroot, setuid, setgid, tls, detach, euid, spelling, cwd, "%s#%s" % (fa[0], fa[1] if len(fa) == 2 else "every-time-errno%d" % fa[2]) if fa else "none", cls), det,
                                {"mode": mode, "usechroot": usechroot, "setuid": setuid, "setgid": setgid, "tls": tls, "fault": list(fa) if fa else None, "detach": detach, "euid": euid, "spelling": spelling, "cwd": cwd})
     return part
 
